@@ -13,11 +13,29 @@ IntSeq = SeqSort(IntSort())
 StrSeq = SeqSort(Str)
 NONE_CAT = -1
 
-SORTS = {'int': IntSort(), 'bool': BoolSort(), 'str': Str, 'tok': Tok, 'E': E}
+# TexNode wrappers as values (views never mutate them): a node is its expression and the node it was reached from
+_N = Datatype('Node')
+_N.declare('top', ('texpr', E))
+_N.declare('sub', ('sexpr', E), ('spar', _N))
+Node = _N.create()
+_I = Datatype('Item')                         # element of a node-level view: a wrapped expression or a raw text leaf
+_I.declare('wrapped', ('node', Node))
+_I.declare('raw', ('leaf', E))
+Item = _I.create()
+ItemSeq = SeqSort(Item)
+NodeSeq = SeqSort(Node)
+
+
+def nexpr(n):
+    """expression of a node term"""
+    return If(Node.is_top(n), Node.texpr(n), Node.sexpr(n))
+
+
+SORTS = {'int': IntSort(), 'bool': BoolSort(), 'str': Str, 'tok': Tok, 'E': E, 'node': Node, 'item': Item}
 
 
 def seqsort(elem):
-    return {'tok': TokSeq, 'E': ESeq, 'int': IntSeq, 'str': StrSeq}[elem]
+    return {'tok': TokSeq, 'E': ESeq, 'int': IntSeq, 'str': StrSeq, 'item': ItemSeq, 'node': NodeSeq}[elem]
 
 
 def pystr(s):
